@@ -1,4 +1,5 @@
 import WV.Proofs.C19_Steps
+import WV.Proofs.C19_Rl
 
 /-!
 C19 — property theorems.  `Str = List Nat` is a Python `str` as its code points ('-' = 45,
@@ -274,6 +275,49 @@ theorem input_code_shape (isD : Nat → Bool) (s : St) (np w : Str) (hv : valida
   · rw [e, chooseWords_shape isD _ np w (Or.inl rfl) rfl rfl]
     simp
 
+/-! ## the readline front-end (`_rlcompleter.CodeInputter`)
+
+A session is any list of `RlEv`: TABs and Returns on arbitrary line contents, interleaved with
+anything else that can happen to the objects underneath (server events, even direct helper calls).
+`J` — "the nameplate the front-end committed is the one Input holds" — is an invariant of every
+session from any state in which nothing is committed yet (`rlRun_J`), so the three theorems below
+hold after arbitrary edit histories.
+-/
+
+/-- every match TAB offers, on any line, in any state, extends the line -/
+theorem rl_completion_extends (isD : Nat → Bool) (r r' : Rl) (text : Str) (l : List Str)
+    (h : rlTab isD r text = (r', .ok l)) : ∀ c ∈ l, text <+: c :=
+  rlTab_extends isD r r' text l h
+
+/-- once a TAB has committed nameplate `c` (at any point of any session `es`), it stays committed for the
+    rest of the session (`es'`), and **any** line whose nameplate part differs from `c` — longer, shorter,
+    different, or the hyphen deleted — is refused by TAB and by Return with `AlreadyInputNameplateError`
+    (Return without a hyphen: `KeyFormatError`), and nothing at all happens underneath -/
+theorem rollback_refused (isD : Nat → Bool) (r0 : Rl) (es es' : List RlEv) (c : Str)
+    (hc : committedNp (rlRun isD r0 es) = some c) :
+    let r := rlRun isD (rlRun isD r0 es) es'
+    committedNp r = some c ∧
+    (∀ t, (∀ w, parseText t ≠ some (c, w)) → rlTab isD r t = ({ r with used := true }, .error .alreadyInputNameplate)) ∧
+    (∀ t np w, parseText t = some (np, w) → np ≠ c → rlFinish isD r t = (r, some .alreadyInputNameplate)) ∧
+    (∀ t, parseText t = none → rlFinish isD r t = (r, some .keyFormat)) := by
+  intro r
+  have hs : committedNp r = some c := rlRun_sticky isD c es' _ hc
+  exact ⟨hs, fun t h => rlTab_rollback isD r c t hs h,
+    fun t np w hp hne => rlFinish_rollback isD r c t np w hs hp hne,
+    fun t hp => rlFinish_nohyphen isD r t hp⟩
+
+/-- after any session that started with nothing committed, a Return that is accepted delivers exactly the
+    text on the line as the code — to Boss and to Key, once — preceded at most by handing the line's own
+    nameplate to Nameplate (when no TAB had committed it) -/
+theorem finished_code_is_typed_text (isD : Nat → Bool) (s0 : St) (u : Bool) (es : List RlEv) (text : Str) (r' : Rl)
+    (h : rlFinish isD (rlRun isD ⟨s0, none, u⟩ es) text = (r', none)) :
+    let r := rlRun isD ⟨s0, none, u⟩ es
+    r'.s.out = r.s.out ++ [.bGotCode text, .kGotCode text] ∨
+    ∃ np w, parseText text = some (np, w) ∧ r'.s.out = r.s.out ++ [.nSetNameplate np, .bGotCode text, .kGotCode text] := by
+  intro r
+  have hJ : J r := rlRun_J isD es _ (by intro np hnp; simp [committedNp] at hnp)
+  exact rlFinish_delivers isD r r' text hJ h
+
 /-! ## non-vacuity: the hypotheses above are met by concrete, non-trivial runs of the model -/
 
 /-- "7-yucatan-aardvark": allocate two words, connect, server allocates nameplate 7, urandom gives ff 00 -/
@@ -307,5 +351,16 @@ example : validateCode isNd [52, 32, 45, 97] ≠ .ok () ∧ validateCode isNd [5
   have e : validateCode isNd [52, 32, 45, 97] = .error .keyFormat := rfl
   rw [e] at h
   cases h
+
+/-- the seeded history "12-" TAB, then "123-ar": `rollback_refused` applies (12 is committed after the first
+    TAB) and the second TAB is refused; a straight session delivers the typed text -/
+example : committedNp (rlRun isNd rlInit [.env .inputCode, .env (.gotNameplates [[49, 50], [49, 50, 51]]), .tab [49, 50, 45]])
+    = some [49, 50] := by decide +kernel
+
+example : (match (rlTab isNd (rlRun isNd rlInit [.env .inputCode, .tab [49, 50, 45]]) [49, 50, 51, 45, 97, 114]).2 with
+    | .error .alreadyInputNameplate => true | _ => false) = true := by decide +kernel
+
+/-- "7-a" Return straight away is accepted (hypothesis of `finished_code_is_typed_text`) -/
+example : (rlFinish isNd (rlRun isNd ⟨init, none, false⟩ [.env .inputCode]) [55, 45, 97]).2 = none := by decide +kernel
 
 end WV.Props.C19
